@@ -481,7 +481,10 @@ class MessageAccumulator:
                 continue
             leader = self._cluster.leader_for_partition(tp)
             if leader is None or leader == -1:
-                if self._batches[tp][0].expired():
+                # With idempotence we never expire batches (see
+                # ``SendProduceReqHandler._can_retry``): dropping one here
+                # would also leave a hole in the partition's sequence numbers
+                if self._txn_manager is None and self._batches[tp][0].expired():
                     # batch is for partition is expired and still no leader,
                     # so set exception for batch and pop it
                     batch = self._pop_batch(tp)
